@@ -499,6 +499,14 @@ func (bh *Header) AddReference(r *Reference) error {
 		if r.uri == nil {
 			r.uri = er.uri
 		}
+		if len(r.otherTags) == 0 {
+			r.otherTags = er.otherTags
+		}
+		// r takes the place of er in the header.
+		er.owner = nil
+		er.id = -1
+		r.owner = bh
+		r.id = dupID
 		bh.refs[dupID] = r
 		return nil
 	}
